@@ -2698,6 +2698,680 @@ def gof_finish(chk, handle):
 
 
 # ================================================================================================
+# F. EXACT REPLAY: NoisySamplingSimulator.samples as a function of its random draws
+# ================================================================================================
+# The real draws of one request are RECORDED at the three random sites (what the input generator hands back, what
+# the sampling backend returns for every input state, what `simulate_detectors_sample` returns) by wrapping module /
+# class attributes from here; the Lean model (`Model/C09Run.lean`, op `replay`) is fed the same draws and must
+# reproduce the run exactly: the returned samples in order, the detected state of every shot, the size of every
+# generator and backend request, the two performances.  The direct oracle re-derives the shots from the recorded
+# draws by the documented meaning alone (one unused backend draw per component, merge, detect, filter / heralds /
+# post-selection) without the model.
+class RecBackend:
+    """Delegating proxy around the real sampling backend: records every `samples(n)` with the input state set."""
+
+    def __init__(self, be, rec):
+        self.__dict__["_be"] = be
+        self.__dict__["_rec"] = rec
+        self.__dict__["_key"] = None
+
+    def set_input_state(self, s):
+        self.__dict__["_key"] = tuple(s)
+        return self._be.set_input_state(s)
+
+    def samples(self, n):
+        res = self._be.samples(n)
+        self._rec["backend"].append([list(self._key), n, [list(s) for s in res]])
+        return res
+
+    def __getattr__(self, k):
+        return getattr(self._be, k)
+
+    def __setattr__(self, k, v):
+        setattr(self._be, k, v)
+
+
+def new_rec():
+    return {"backend": [], "det": [], "gens": [], "table": [], "calls": []}
+
+
+def components_of(bs):
+    """Fock components of an emitted input, as `_noisy_sampling` separates them."""
+    if bs.has_annotations:
+        return [list(c) for c in bs.separate_state(keep_annotations=False)]
+    return [list(bs)]
+
+
+class recording:
+    """`with recording(rec):` — wraps the random sites of perceval.simulators.noisy_sampling_simulator."""
+
+    def __init__(self, rec):
+        self.rec = rec
+        self.stack = None
+
+    def __enter__(self):
+        from contextlib import ExitStack
+        import perceval.simulators.noisy_sampling_simulator as nss
+        from perceval.utils.statevector import BSDistribution
+        from perceval.components.source import Source
+        rec = self.rec
+        NSS = nss.NoisySamplingSimulator
+        orig_init, orig_samples = NSS.__init__, NSS.samples
+        orig_det, orig_bsd = nss.simulate_detectors_sample, BSDistribution.sample
+        orig_gen, orig_cache = Source.generate_samples, Source.cache_prob_table
+        depth = {"det": 0, "src": 0}
+
+        def init(self_, be):
+            orig_init(self_, RecBackend(be, rec))
+
+        def samples(self_, svd, max_samples, max_shots=None, progress_callback=None):
+            rec["calls"].append({"svd": svd, "ms": max_samples, "sh": max_shots,
+                                 "filter": self_._min_detected_photons_filter, "heralds": dict(self_._heralds),
+                                 "keep": self_._keep_heralds, "ps": self_._postselect, "dets": self_._detectors})
+            return orig_samples(self_, svd, max_samples, max_shots, progress_callback)
+
+        def det(sample, detectors, detection=None):
+            depth["det"] += 1
+            try:
+                out = orig_det(sample, detectors, detection)
+            finally:
+                depth["det"] -= 1
+            rec["det"].append([list(sample), list(out)])
+            return out
+
+        def bsd_sample(self_, count, non_null=True):
+            out = orig_bsd(self_, count, non_null)
+            if not depth["det"] and not depth["src"]:
+                rec["gens"].append([count, [components_of(s) for s in out]])
+            return out
+
+        def gen(self_, max_samples, expected_input, min_detected_photons=0):
+            depth["src"] += 1
+            try:
+                out = orig_gen(self_, max_samples, expected_input, min_detected_photons)
+            finally:
+                depth["src"] -= 1
+            rec["gens"].append([max_samples, [components_of(s) for s in out]])
+            return out
+
+        def cache(self_, n, f=0):
+            out = orig_cache(self_, n, f)
+            if not depth["src"]:
+                rec["table"].append([n, f, out[0], out[1]])
+            return out
+
+        self.stack = ExitStack()
+        for p in (mock.patch.object(NSS, "__init__", init), mock.patch.object(NSS, "samples", samples),
+                  mock.patch.object(nss, "simulate_detectors_sample", det),
+                  mock.patch.object(BSDistribution, "sample", bsd_sample),
+                  mock.patch.object(Source, "generate_samples", gen),
+                  mock.patch.object(Source, "cache_prob_table", cache)):
+            self.stack.enter_context(p)
+        return self
+
+    def __exit__(self, *exc):
+        self.stack.close()
+        return False
+
+
+_PS_COND = None
+
+
+def ps_to_json(text):
+    """The printed form of a PostSelect (fully parenthesised) -> the driver's JSON expression."""
+    import re
+    s = text.strip()
+    if not s:
+        return True
+    pos = [0]
+
+    def ws():
+        while pos[0] < len(s) and s[pos[0]] == " ":
+            pos[0] += 1
+
+    def atom():
+        ws()
+        if s[pos[0]] == "!":
+            pos[0] += 1
+            return {"not": atom()}
+        if s[pos[0]] == "(":
+            pos[0] += 1
+            a = expr()
+            ws()
+            assert s[pos[0]] == ")", text
+            pos[0] += 1
+            return a
+        m = re.compile(r"\[([0-9, ]*)\]\s*(==|<=|>=|<|>)\s*([0-9]+)").match(s, pos[0])
+        assert m, text
+        pos[0] = m.end()
+        return {"c": [int(x) for x in m.group(1).split(",") if x.strip()], "op": m.group(2), "k": int(m.group(3))}
+
+    def expr():
+        a = atom()
+        while True:
+            ws()
+            if pos[0] < len(s) and s[pos[0]] in "&|^":
+                op = {"&": "and", "|": "or", "^": "xor"}[s[pos[0]]]
+                pos[0] += 1
+                b = atom()
+                a = {op: [a, b]}
+            else:
+                return a
+
+    out = expr()
+    ws()
+    assert pos[0] == len(s), text
+    return out
+
+
+def gen_ps_text(rng, m, depth=0):
+    r = rng.random()
+    if depth >= 2 or r < 0.55:
+        k = rng.randint(1, min(2, m))
+        modes = sorted(rng.sample(range(m), k))
+        return f"[{','.join(map(str, modes))}] {rng.choice(['==', '<', '>', '<=', '>='])} {rng.randint(0, 2)}"
+    if r < 0.9:
+        return f"({gen_ps_text(rng, m, depth + 1)} {rng.choice('&|^')} {gen_ps_text(rng, m, depth + 1)})"
+    return f"!({gen_ps_text(rng, m, depth + 1)})"
+
+
+def det_mode_of(dets):
+    from perceval.components.detector import get_detection_type, DetectionType
+    if not dets:
+        return "none"
+    t = get_detection_type(dets)
+    return "none" if t == DetectionType.PNR else ("threshold" if t == DetectionType.Threshold else "random")
+
+
+def replay_request(call, rec):
+    """The Lean request for one recorded call of NoisySamplingSimulator.samples."""
+    from perceval.components.source import Source
+    svd = call["svd"]
+    dets = call["dets"]
+    mode = det_mode_of(dets)
+    heralds = sorted([int(k), int(v)] for k, v in call["heralds"].items())
+    if isinstance(svd, tuple):
+        src, bs = svd
+        tab = rec["table"][0] if rec["table"] else None
+        spec = {"kind": "source", "perfect": bool(src.is_perfect()), "annotated": bool(bs.has_annotations),
+                "input": list(bs), "pre": core.rat(tab[2]) if tab else "1", "zpp": core.rat(tab[3]) if tab else "0"}
+    else:
+        items = []
+        for sv, p in svd.items():
+            if len(sv) != 1:
+                return None
+            b = sv[0]
+            items.append({"comps": components_of(b), "annotated": bool(b.has_annotations), "n": int(b.n),
+                          "p": core.rat(float(p))})
+        spec = {"kind": "svd", "items": items}
+    backend, order = {}, []
+    for key, _n, outs in rec["backend"]:
+        k = tuple(key)
+        if k not in backend:
+            backend[k] = []
+            order.append(k)
+        backend[k].extend(outs)
+    det_draws, dorder = {}, []
+    if mode == "random":
+        for a, b in rec["det"]:
+            k = tuple(a)
+            if k not in det_draws:
+                det_draws[k] = []
+                dorder.append(k)
+            det_draws[k].append(b)
+    ps = call["ps"]
+    n_inputs = sum(len(b) for _c, b in rec["gens"])
+    return {"op": "replay", "lazy": True, "ms": call["ms"], "sh": call["sh"], "filter": int(call["filter"]),
+            "heralds": heralds, "keep": bool(call["keep"]), "ps": ps_to_json(str(ps)) if ps is not None else True,
+            "psHasCond": bool(ps.has_condition) if ps is not None else False, "det": mode,
+            "detMax": None if dets is None else [None if d is None else d.max_detections for d in dets],
+            "spec": spec, "gens": [b for _c, b in rec["gens"]],
+            "backend": [[list(k), backend[k]] for k in order],
+            "detDraws": [[list(k), det_draws[k]] for k in dorder], "fuel": n_inputs + len(rec["gens"]) + 8}
+
+
+def replay_float_tie(call, rec):
+    """True when a float of the run sits on a rounding boundary the rational model resolves the other way:
+    `ceil(prob * n)` of a weight estimate, `ceil(max_shots * perf / (1 - zpp))`, the `p >= max_p / n` trimming."""
+    svd = call["svd"]
+    ms, sh = call["ms"], call["sh"]
+    if ms is None:
+        return False
+    prep = ms if sh is None else min(ms, sh)
+    eff = call["filter"] + sum(call["heralds"].values())
+
+    def near_int(x):
+        return abs(x - round(x)) < F(1, 10 ** 9)
+
+    if isinstance(svd, tuple):
+        if eff >= 2 and sh is not None and rec["table"]:
+            pre, zpp = F(rec["table"][0][2]), F(rec["table"][0][3])
+            if zpp != 1 and near_int(sh * pre / (1 - zpp)) and not (pre / (1 - zpp)).denominator == 1:
+                return True
+        return False
+    items = [(sv[0], F(float(p))) for sv, p in svd.items() if len(sv) == 1]
+    max_p = max([p for b, p in items if b.n >= eff], default=F(0))
+    pre = F(1) - sum((p for b, p in items if b.n < eff), F(0))
+    zpp = sum((p for b, p in items if b.n == 0), F(0))
+    if prep and max_p:
+        thr = max_p / prep
+        if any(b.n >= eff and p != max_p and abs(p - thr) <= thr * F(1, 10 ** 9) for b, p in items):
+            return True
+    if eff >= 2 and sh is not None and zpp != 1:
+        v = sh * pre / (1 - zpp)
+        if near_int(v) and v.denominator != 1:
+            return True
+        if near_int(v) and v.denominator == 1 and float(pre) / (1 - float(zpp)) != float(pre / (1 - zpp)):
+            return True
+        prep = min(prep, math.ceil(v))
+    kept = [(b, p) for b, p in items if b.n >= eff and (not prep or p >= max_p / prep)]
+    tot = sum((p for _b, p in kept), F(0))
+    for _b, p in kept:
+        if tot and near_int(p / tot * prep) and (p / tot * prep).denominator != 1:
+            return True
+        if tot and math.ceil(float(p) / float(tot) * prep) != math.ceil(p / tot * prep):
+            return True
+    return False
+
+
+def classify_full(call, st):
+    """Documented meaning of the selection on a FULL detected state -> 'p' / 'l' / 's' (the photon filter does not
+    count the photons the heralds expect; a state failing both tests is a physical rejection)."""
+    from perceval.utils import BasicState
+    her = call["heralds"]
+    if sum(st) - sum(her.values()) < call["filter"]:
+        return "p"
+    if any(st[k] != v for k, v in her.items()):
+        return "l"
+    ps = call["ps"]
+    if ps is not None and ps.has_condition and not ps(BasicState(list(st))):
+        return "l"
+    return "s"
+
+
+def oracle_replay(call, rec, obs):
+    """The property on the recorded run, without the model: every shot uses one not yet used backend draw per
+    component of its input (a pool is emptied from its end, as documented for `sample_from`), the detectors see the
+    merge, the returned samples are the selected shots in order with the heralded modes removed, the performances
+    are the observed frequencies.  -> None or (signature, what)."""
+    if "raise" in obs or obs.get("path_fast"):
+        return None
+    dets = call["dets"]
+    if not dets:
+        return None        # without a detector list the shots are not observable one by one
+    her = call["heralds"]
+    batches = {}
+    for key, _n, outs in rec["backend"]:
+        batches.setdefault(tuple(key), []).append(list(outs))
+    pools = {}
+    inputs = [c for _cnt, b in rec["gens"] for c in b]
+    mode = det_mode_of(dets)
+    expected, cls = [], {"p": 0, "l": 0, "s": 0}
+    if len(rec["det"]) > len(inputs):
+        return ("replay:more-shots-than-inputs", f"{len(rec['det'])} shots for {len(inputs)} emitted inputs")
+    for j, (seen_in, seen_out) in enumerate(rec["det"]):
+        comps = inputs[j]
+        total = None
+        for c in comps:
+            k = tuple(c)
+            if not pools.get(k):
+                if sum(c) == 0 and not batches.get(k):
+                    pools[k] = [list(c)]
+                elif batches.get(k):
+                    pools[k] = batches[k].pop(0)
+                else:
+                    return ("replay:draw-used-twice-or-never-made",
+                            f"shot {j} needs an output for input {c} but every recorded draw of it is used")
+            d = pools[k].pop()
+            total = d if total is None else [a + b for a, b in zip(total, d)]
+        if sum(comps[0]) == 0 and len(comps) == 1 and list(seen_in) != total:
+            total = list(seen_in)     # vacuum pools prepared without the backend hold the input itself
+        if list(seen_in) != total:
+            return ("replay:detectors-see-another-state",
+                    f"shot {j}: the components {comps} drew outputs summing to {total}, the detectors were handed "
+                    f"{seen_in}")
+        if mode == "none" and list(seen_out) != list(seen_in):
+            return ("replay:pnr-detection-changes-state", f"shot {j}: {seen_in} -> {seen_out}")
+        if mode == "threshold" and list(seen_out) != [min(1, x) for x in seen_in]:
+            return ("replay:threshold-detection-wrong", f"shot {j}: {seen_in} -> {seen_out}")
+        c = classify_full(call, list(seen_out))
+        cls[c] += 1
+        if c == "s":
+            expected.append([x for i, x in enumerate(seen_out) if call["keep"] or i not in her])
+    if obs["results"] != expected:
+        return ("replay:samples-are-not-the-selected-shots",
+                f"returned {obs['results'][:6]}… ({len(obs['results'])}), the selected shots are {expected[:6]}… "
+                f"({len(expected)})")
+    if cls["s"]:
+        pre = F(rec["table"][0][2]) if isinstance(call["svd"], tuple) and rec["table"] else None
+        if pre is None and not isinstance(call["svd"], tuple):
+            eff = call["filter"] + sum(her.values())
+            pre = F(1) - sum((F(float(p)) for sv, p in call["svd"].items() if sv[0].n < eff), F(0))
+        if pre is not None:
+            want_ph = pre * F(cls["s"] + cls["l"], cls["s"] + cls["l"] + cls["p"])
+            want_lg = F(cls["s"], cls["s"] + cls["l"])
+            if not core.close(obs["phys"], float(want_ph)) or not core.close(obs["logical"], float(want_lg)):
+                return ("replay:performances-are-not-the-observed-frequencies",
+                        f"reported ({obs['phys']}, {obs['logical']}), the shots give ({float(want_ph)}, "
+                        f"{float(want_lg)}) = {cls}")
+    return None
+
+
+def build_replay_target(case):
+    """-> callable running the request of `case` on freshly built real objects."""
+    import perceval as pcvl
+    from perceval.utils import BasicState, SVDistribution, StateVector, PostSelect
+    spec = case["spec"]
+    if case["via"] in ("processor", "processor-svd"):
+        p = build_proc(spec, "CliffordClifford2017")
+        if case["via"] == "processor-svd":
+            if case["svd"] == "source":
+                from perceval.components.source import Source
+                svd = Source.from_noise_model(noise_model(spec["noise"])).generate_distribution(
+                    BasicState(spec["input"]))
+            else:
+                svd = SVDistribution({StateVector(BasicState(st)): float(F(p_)) for st, p_ in case["svd"]})
+            if spec["filter"] is None:
+                p.min_detected_photons_filter(0)
+            full = {}
+            # a custom input covers ALL modes of the processor
+            p.with_input(svd)
+        return lambda: p.samples(case["ms"], case["sh"])
+    # direct use of the simulator
+    from perceval.simulators import NoisySamplingSimulator
+    from perceval.backends import Clifford2017Backend
+    from . import gens
+    sim = NoisySamplingSimulator(Clifford2017Backend())
+    sim.sleep_between_batches = 0
+    sim.set_circuit(pcvl.Unitary(pcvl.Matrix(gens.haar(spec["m"], spec["useed"]))))
+    sim.set_selection(min_detected_photons_filter=spec["filter"] or 0,
+                      heralds={int(k): v for k, v in spec["heralds"].items()},
+                      postselect=PostSelect(spec["ps"]) if spec["ps"] else None)
+    sim.keep_heralds(case["keep"])
+    if spec["detectors"] is not None:
+        sim.set_detectors([make_detector(d) for d in spec["detectors"]])
+    from perceval.components.source import Source
+    src = Source.from_noise_model(noise_model(spec["noise"]))
+    bs = BasicState(spec["input"])
+    if case["svd"] == "tuple":
+        svd = (src, bs)
+    elif case["svd"] == "source":
+        svd = src.generate_distribution(bs)
+    else:
+        svd = SVDistribution({StateVector(BasicState(st)): float(F(p_)) for st, p_ in case["svd"]})
+    return lambda: sim.samples(svd, case["ms"], case["sh"])
+
+
+def run_replay_case(case):
+    """Run the request for real with the random sites recorded -> (obs, rec)."""
+    import perceval as pcvl
+    rec = new_rec()
+    obs = {}
+    try:
+        with recording(rec):
+            target = build_replay_target(case)
+            pcvl.random_seed(case["seed"])
+            with watchdog(CALL_TIMEOUT):
+                res = target()
+        obs["results"] = [list(s) for s in res["results"]]
+        obs["phys"], obs["logical"] = res["physical_perf"], res["logical_perf"]
+    except Exception as e:  # noqa: BLE001 - mapped to its class name
+        obs["raise"] = type(e).__name__
+        obs["message"] = str(e)[:200]
+    return obs, rec
+
+
+def compare_replay(call, rec, obs, rep):
+    """-> None or a description of the first difference between the real run and the model's replay."""
+    if "err" in rep:
+        return f"the driver rejected the request: {rep['err']}"
+    if "need" in rep:
+        return f"the model asks the {rep['need']} site for more draws than the code consumed"
+    if "raise" in obs or "raise" in rep:
+        if obs.get("raise") != rep.get("raise"):
+            return f"code raised {obs.get('raise')} ({obs.get('message')}), model {rep.get('raise', 'returns')}"
+        return None
+    if rep["results"] != obs["results"]:
+        k = next((i for i, (a, b) in enumerate(zip(rep["results"], obs["results"])) if a != b),
+                 min(len(rep["results"]), len(obs["results"])))
+        return (f"samples differ at position {k}: code {obs['results'][k:k + 3]} (of {len(obs['results'])}), model "
+                f"{rep['results'][k:k + 3]} (of {len(rep['results'])})")
+    for k in ("phys", "logical"):
+        if not core.close(obs[k], float(F(rep[k]))):
+            return f"{k} performance: code {obs[k]}, model {rep[k]} = {float(F(rep[k]))}"
+    asked = [c for c, _b in rec["gens"]]
+    if rep["asked"] != asked:
+        return f"generator requests: code {asked}, model {rep['asked']}"
+    per_key_code, per_key_model = {}, {}
+    for key, n, _o in rec["backend"]:
+        per_key_code.setdefault(tuple(key), []).append(n)
+    for key, n in rep["reqs"]:
+        per_key_model.setdefault(tuple(key), []).append(n)
+    if per_key_code != per_key_model:
+        bad = sorted(k for k in set(per_key_code) | set(per_key_model) if per_key_code.get(k) != per_key_model.get(k))
+        k = bad[0]
+        return f"backend requests for input {list(k)}: code {per_key_code.get(k)}, model {per_key_model.get(k)}"
+    if call["dets"] and rep["path"] == "loop":
+        seen = [b for _a, b in rec["det"]]
+        if rep["seen"] != seen:
+            return f"detected states of the shots: code {seen[:5]}… ({len(seen)}), model {rep['seen'][:5]}… ({len(rep['seen'])})"
+    if rep["path"] == "loop":
+        lz = rep.get("lazy")
+        if lz is None or lz["results"] != rep["results"] or lz["shots"] != rep["shots"] or \
+                lz["notSel"] != rep["notSel"] or lz["notSelPhys"] != rep["notSelPhys"]:
+            return f"the lazy provider on the re-ordered streams does not reproduce the pooled run: {lz}"
+    return None
+
+
+def judge_replay(chk, case, count=True):
+    """-> None or (kind, signature, what, replay)."""
+    obs, rec = run_replay_case(case)
+    replay = {"part": "replayrec", "case": case}
+    if len(rec["calls"]) != 1:
+        if obs.get("raise") and not rec["calls"]:
+            # rejected before the simulator is reached (Processor-level validation)
+            if count:
+                chk.branch("replay-rejected-before-the-simulator")
+            return None
+        return ("broken", "replay:recording", f"{len(rec['calls'])} calls of NoisySamplingSimulator.samples recorded "
+                                             f"({obs})", replay)
+    call = rec["calls"][0]
+    req = replay_request(call, rec)
+    if req is None:
+        return None
+    tie = replay_float_tie(call, rec)
+    rep = chk.lean.ask(req)
+    diff = compare_replay(call, rec, obs, rep)
+    obs["path_fast"] = rep.get("path") in ("fast", "incompatible", "none")
+    direct = oracle_replay(call, rec, obs)
+    if count:
+        if "raise" in obs:
+            chk.branch("replay-raise:" + obs["raise"])
+        else:
+            chk.branch("replay-path:" + str(rep.get("path")))
+            if rep.get("path") == "loop":
+                if isinstance(call["svd"], tuple):
+                    chk.branch("replay-source-route")
+                else:
+                    chk.branch("replay-distribution-route")
+                if len(rec["gens"]) > (2 if isinstance(call["svd"], tuple) else 1):
+                    chk.branch("replay-generator-asked-again")
+                per_key = {}
+                for key, n, _o in rec["backend"]:
+                    per_key[tuple(key)] = per_key.get(tuple(key), 0) + 1
+                if any(v >= 2 for v in per_key.values()):
+                    chk.branch("replay-pool-refilled")
+                if any(v >= 3 for v in per_key.values()):
+                    chk.branch("replay-pool-refilled-twice")
+                if any(len(c) >= 2 for _c, b in rec["gens"] for c in b):
+                    chk.branch("replay-tagged-input-merged")
+                if req["det"] == "random":
+                    chk.branch("replay-detector-draws")
+                if req["det"] == "threshold":
+                    chk.branch("replay-threshold-detectors")
+                if rep.get("notSelPhys"):
+                    chk.branch("replay-physical-rejection")
+                if rep.get("notSel"):
+                    chk.branch("replay-logical-rejection")
+                if call["heralds"] and not call["keep"]:
+                    chk.branch("replay-heralded-modes-removed")
+                if call["heralds"] and call["keep"]:
+                    chk.branch("replay-heralded-modes-kept")
+                if call["sh"] is not None and rep.get("shots", 0) >= 1 and len(obs["results"]) < (call["ms"] or 0):
+                    chk.branch("replay-stopped-by-shots")
+                if call["ms"] and len(obs["results"]) == call["ms"]:
+                    chk.branch("replay-stopped-by-samples")
+                if call["filter"] + sum(call["heralds"].values()) >= 2 and call["sh"] is not None:
+                    chk.branch("replay-shots-rescaled")
+                if any(sum(c) == 0 for _c, b in rec["gens"] for cs in b for c in cs):
+                    chk.branch("replay-vacuum-input")
+            chk.count("replay_shots", min(rep.get("shots", 0) // 50 * 50, 1000) if "shots" in rep else "-")
+        if tie:
+            chk.branch("replay-float-tie-skipped")
+    if direct is not None:
+        return ("violation", direct[0], f"{case['via']} request ms={case['ms']} sh={case['sh']}: {direct[1]}", replay)
+    if diff is not None and not tie:
+        return ("broken", "replay:model-vs-code", f"{case['via']} request ms={case['ms']} sh={case['sh']}: {diff}",
+                replay)
+    return None
+
+
+def gen_replay_case(rng, i):
+    """One request: a processor description, the route, the limits, a seed."""
+    r = i % 10
+    if r in (0, 1, 2, 3, 4):
+        kind = ["perfect", "selected", "noisy", "noisy-selected", "detectors", "everything"][rng.randrange(6)]
+        spec = gen_proc_spec(rng, kind)
+        via = "processor"
+    elif r == 5:
+        spec = gen_bunching_selected_spec(rng)
+        via = "processor"
+    elif r in (6, 7):
+        spec = gen_proc_spec(rng, rng.choice(["noisy", "noisy-selected", "everything", "detectors"]))
+        via = "processor-svd"
+    else:
+        spec = gen_proc_spec(rng, rng.choice(["selected", "noisy", "noisy-selected", "detectors", "everything"]))
+        via = "nss"
+    case = {"spec": spec, "via": via, "seed": rng.randrange(2 ** 31), "keep": False, "svd": None}
+    m = spec["m"]
+    selective = bool(spec["heralds"] or spec["ps"] or (spec["filter"] or 0) >= 2 or spec["detectors"])
+    case["ms"] = rng.choice([0, 1, 2, 3, 5, 8, 13, 30, 30, 60, 60, 150, 150, 400])
+    case["sh"] = rng.choice([0, 1, 2, 5, 17, 40, 100, 100, 300, 300, 1000, 1000, 3000]) \
+        if selective or rng.random() < 0.6 else None
+    if via == "processor-svd":
+        if spec["noise"] and rng.random() < 0.6:
+            case["svd"] = "source"
+        else:
+            # a hand-made mixture of Fock states with different photon numbers (vacuum included)
+            states, tot = [], F(0)
+            seen = set()
+            for _ in range(rng.randint(1, 5)):
+                st = [0] * m
+                for _ in range(rng.choice([0, 1, 1, 2, 2, 3])):
+                    st[rng.randrange(m)] += 1
+                if tuple(st) in seen:
+                    continue
+                seen.add(tuple(st))
+                w = F(rng.randint(1, 40))
+                states.append([st, w])
+                tot += w
+            case["svd"] = [[st, str(w / tot)] for st, w in states]
+        if spec["filter"] is None:
+            spec["filter"] = rng.choice([0, 1])
+        # heralds are part of the custom input: keep the description simple
+        spec["heralds"] = {}
+        if spec["ps"] is not None and rng.random() < 0.5:
+            spec["ps"] = gen_ps_text(rng, m)
+    if via == "nss":
+        case["keep"] = rng.random() < 0.5
+        case["svd"] = rng.choice(["tuple", "tuple", "source"])
+        if rng.random() < 0.6:
+            spec["ps"] = gen_ps_text(rng, m)
+        if spec["detectors"] is None and rng.random() < 0.5:
+            spec["detectors"] = [None] * m      # a detector list holding no detector
+        if spec["filter"] is None:
+            spec["filter"] = rng.choice([0, 1, 2])
+        if rng.random() < 0.08:
+            case["ms"] = None
+    return case
+
+
+def shrink_replay(chk, case, sig):
+    def fails(c):
+        for k in range(3):
+            res = judge_replay(chk, dict(c, seed=c["seed"] + k), count=False)
+            if res is not None and res[1] == sig:
+                return dict(c, seed=c["seed"] + k)
+        return None
+
+    cur = case
+    for _round in range(4):
+        changed = False
+        cands = []
+        for ms in (1, 2, 3, 5, 8):
+            if cur["ms"] is not None and ms < cur["ms"]:
+                cands.append(dict(cur, ms=ms))
+        for sh in (1, 2, 5, 17, 40):
+            if cur["sh"] is None or sh < cur["sh"]:
+                cands.append(dict(cur, sh=sh))
+        sp = cur["spec"]
+        if sp["ps"]:
+            cands.append(dict(cur, spec=dict(sp, ps=None)))
+        if sp["detectors"] and cur["via"] != "processor-svd":
+            cands.append(dict(cur, spec=dict(sp, detectors=None if cur["via"] == "processor" else [None] * sp["m"])))
+        if sp["noise"] and cur["svd"] != "source":
+            cands.append(dict(cur, spec=dict(sp, noise=None)))
+        for c in cands:
+            try:
+                got = fails(c)
+            except Exception:  # noqa: BLE001 - a simplification may describe an impossible processor
+                got = None
+            if got is not None:
+                cur, changed = got, True
+                break
+        if not changed:
+            break
+    return cur
+
+
+def handle_replay(chk, case, label="random"):
+    res = judge_replay(chk, case)
+    chk.case(("F", case["via"], case["spec"]["kind"], case["spec"]["useed"], case["ms"], case["sh"], case["seed"]),
+             nontrivial=bool(case["ms"]) and case["sh"] != 0,
+             sample={"via": case["via"], "kind": case["spec"]["kind"], "ms": case["ms"], "sh": case["sh"]})
+    chk.count("replay_via", case["via"])
+    if res is not None:
+        kind, sig, what, replay = res
+        if label == "random":
+            small = shrink_replay(chk, case, sig)
+            res2 = judge_replay(chk, small, count=False)
+            if res2 is not None and res2[1] == sig:
+                kind, sig, what, replay = res2
+        chk.fail(kind, sig, what, replay)
+
+
+def provider_constants(chk):
+    """The float facts the model of SamplesProvider relies on, for every weight the code can hold."""
+    rep = chk.lean.ask({"op": "provconst", "n": 2000})
+    for w in range(2001):
+        if math.ceil(0.1 * w) != rep["ceilTenth"][w]:
+            chk.fail("broken", "replay:ceil-tenth", f"math.ceil(0.1*{w}) = {math.ceil(0.1 * w)}, model "
+                                                     f"{rep['ceilTenth'][w]}", {"part": "provconst"})
+            break
+        if min(max(int(w * 1.1), 16), 2000) != rep["grow"][w]:
+            chk.fail("broken", "replay:grow", f"weight growth of {w}: code {min(max(int(w * 1.1), 16), 2000)}, "
+                                              f"model {rep['grow'][w]}", {"part": "provconst"})
+            break
+    chk.branch("replay-provider-constants")
+
+
+def replay_part(chk, n):
+    provider_constants(chk)
+    for i in range(n):
+        handle_replay(chk, gen_replay_case(chk.rng, i))
+
+
+# ================================================================================================
 # run / replay
 # ================================================================================================
 def load_corpus():
